@@ -229,6 +229,16 @@ class Module:
             return getattr(Sym.lift(args[0]), name)()
         if name in ('fabs', 'llvm.fabs.f64'):
             return abs(Sym.lift(args[0]))
+        if name == 'expm1':      # exp(x) - 1 (real-number semantics; its round-off advantage is outside the model)
+            return Sym.lift(self.call('exp', [args[0]])) - 1      # through a hooked exp, if any
+        if name == 'log1p':
+            return (Sym.lift(args[0]) + 1).log()
+        if name in ('fmax', 'llvm.maxnum.f64'):
+            a, b = Sym.lift(args[0]), Sym.lift(args[1])
+            return a if a >= b else b
+        if name in ('fmin', 'llvm.minnum.f64'):
+            a, b = Sym.lift(args[0]), Sym.lift(args[1])
+            return a if a <= b else b
         if name == 'lgamma':
             return Sym(UF['LGAMMA'](Sym.lift(args[0]).t))
         if name == 'pow':
